@@ -18,11 +18,11 @@ CHECKS = {
          "Exploration: for every constant-time entry point the recorded leakage trace under adversarial and uniform secret assignments must equal the trace of a reference assignment; a divergence names the function of the deciding event. The known finding K1 (checkInitialized) is matched by function and witness class and everything else is still a violation. The machine-level stage sees the assembly and whatever the compiler emitted; heap objects allocated inside a traced call are compared coarsely (see DESIGN 3.6). Both observe only the executions run; micro-architectural timing is out of reach.", "3.5, 5 C03"),
  "C04": ("reference-model monitor: Euler-criterion/ModSqrt decoding oracle vs. Point.SetBytes over constructed 32-byte classes and all other lengths",
          "Exploration: accept/reject and the decoded point are compared with the oracle over boundary, non-canonical, neighbour, bit-flip and uniform inputs and every wrong length up to 100. 2^256 inputs are sampled by class, not enumerated.", "5 C04"),
- "C05": ("reference-model monitor: RFC 8032 encoding of the model point vs. Bytes() over every construction route/projective scaling/history of the same point; round trips",
+ "C05": ("reference-model monitor: RFC 8032 encoding of the model point vs. Bytes() over every construction route/projective scaling/history of the same point; round trips; a long-lived encoded object re-assigned through every assigning method",
          "Exploration: representation independence is exercised by encoding the same model point through 10 public-API routes per case and through different operation histories; sampled points.", "5 C05"),
  "C06": ("reference-model monitor: model equality vs. Point.Equal over related pairs (same point in two representations, torsion translates, negatives, shared coordinate, 8x8 small-order pairs)",
          "Exploration: both argument orders, all relations that share coordinates, exhaustive small-order pairs; sampled prime-order parts.", "5 C06"),
- "C07": ("reference-model monitor: math/big arithmetic mod l vs. Scalar operations; raw Montgomery limb bound; Equal on all 253 single-bit Montgomery differences",
+ "C07": ("reference-model monitor: math/big arithmetic mod l vs. Scalar operations; raw Montgomery limb bound; Equal on all 253 single-bit Montgomery differences; one object taken through multiplier use and every mutating method in turn",
          "Exploration: class x class operand pairs, multiple construction routes, every bit of Equal's OR-fold exercised in isolation; millions of evaluations, not l^3.", "5 C07"),
  "C08": ("reference-model monitor: integer comparison / mod l / RFC 8032 clamping vs. the scalar setters and Bytes over boundary-constructed byte strings and all lengths",
          "Exploration: the accept boundary is probed at every byte position of the lexicographic comparison, wide reduction at every single bit and near 2^512, every wrong length; sampled otherwise.", "5 C08"),
@@ -42,14 +42,14 @@ CHECKS = {
          "Exploration: the (operation, position) table is enumerated completely; the other argument values are sampled.", "5 C15"),
  "C16": ("reference-model monitor: SQRT_RATIO_M1 written from the specification (Euler criterion + ModSqrt) vs. SqrtRatio over (u,v) classes x representations x receiver aliasing",
          "Exploration: all case classes of the contract incl. (0,0), (u,0), +-i ratios; sampled values.", "5 C16"),
- "C17": ("reference-model monitor: (1+y)/(1-y) in math/big and crypto/ecdh X25519 public keys vs. BytesMontgomery",
+ "C17": ("reference-model monitor: (1+y)/(1-y) in math/big and crypto/ecdh X25519 public keys vs. BytesMontgomery, also on long-lived objects re-assigned after an earlier encoding",
          "Exploration: whole-group points in all construction routes plus an independent second oracle; sampled.", "5 C17"),
  "C18": ("Go race detector over cold child processes with simultaneous first use (injected delays at construction entries) + entry-counter monitor (each sync.Once body at most once, construction counts equal to a sequential cold process) + concurrent vs. sequential transcripts + cross-process package-state digests",
          "Exploration of schedules: 40 (quick) / 600 (thorough) cold processes with 2-64 goroutines; contention is measured, not assumed. Only schedules the Go scheduler plus delays produce are seen.", "3.7, 5 C18"),
  "C19": ("history monitor with mutation steps: scribbling over every kind of returned value followed by probe calls with model-known answers, memory-overlap checks, purity memo, package-globals digest (in-process and across processes, cold and warm)",
          "Exploration: thousands of programs; every mutation is followed by probes; half of the processes use the tables for the first time after mutations.", "5 C19"),
- "C20": ("cross-build differential monitor: the same seeded workload in the default (assembly), purego and GOARCH=386 builds, per-chunk transcripts compared by the controller; math/big oracle and limb bound in each build; guard pages around the assembly operands; callee-saved register (BP) monitor around the assembly calls",
-         "Exploration: Multiply/Square on limb-maximal reachable operands in all aliasing patterns at page edges, plus a deterministic whole-API program, under the two configurations the property names plus GOARCH=386 (portable code, 32-bit int), all executable on this machine.", "3.7, 5 C20, 9.6"),
+ "C20": ("cross-build differential monitor: the same seeded workload in the default (assembly), purego, GOARCH=386 and (where the CPU allows) GOAMD64=v3 builds, per-chunk transcripts compared by the controller; math/big oracle and limb bound in each build; guard pages around the assembly operands; callee-saved register (BP) monitor around the assembly calls",
+         "Exploration: Multiply/Square on limb-maximal reachable operands in all aliasing patterns at page edges, plus a deterministic whole-API program, under the two configurations the property names plus GOARCH=386 (portable code, 32-bit int) and GOAMD64=v3 (level-specific assembly and compiler output), all executable on this machine.", "3.7, 5 C20, 9.6"),
 }
 NOT_YET = {}
 
